@@ -15,6 +15,7 @@ from collections import deque
 CAP = 24
 BIG = CAP + 1
 HW = 12
+NEAR = 16        # positions within NEAR of the frontier are kept frontier-relative, others region-relative (while F is exact)
 BUDGET = 200000
 
 
@@ -314,18 +315,29 @@ class Machine:
         return base if not self.mirror else base
 
     def normalize(self, v, st):
-        """mirror mode: while F is exact, express positions without F (B + F + rem + k  ->  B + rem + (k + F)) so that the loop
-        variable of a backward scan has ONE representation"""
+        """one representation per value while F is exact.  Mirror mode: positions are expressed without F (B + F + rem + k -> B + rem +
+        (k + F)), so that the loop variable of a backward scan is stable.  Forward mode: a position within 2 of the frontier is
+        frontier-relative, one further behind is region-relative (B + k) — the loop variable and a remembered start are both stable."""
         F = st[1]
-        if not self.mirror or not isinstance(F, int):
+        if not isinstance(F, int):
             return v
 
         def f(x):
             if isinstance(x, tuple):
                 if x and x[0] == 'n':
                     cB, cF, cR = KIND[x[1]]
-                    if cF == 1:
-                        return ('n', KIND_OF[(cB, 0, cR)], x[2] + F)
+                    if self.mirror:
+                        # near the (backward) frontier: counted from the unread end; far from it: counted from the region end
+                        if cB == 1 and cR == 1:
+                            if cF == 1 and x[2] + F <= NEAR:
+                                return ('n', 'rpos', x[2] + F)
+                            if cF == 0 and x[2] > NEAR:
+                                return ('n', 'len', x[2] - F)
+                    elif cR == 0 and cB == 1:
+                        if cF == 0 and x[2] - F >= -NEAR:
+                            return ('n', 'rel', x[2] - F)
+                        if cF == 1 and x[2] < -NEAR:
+                            return ('n', 'pos', x[2] + F)
                     return x
                 if x and x[0] == 'lit':
                     return x
@@ -394,7 +406,16 @@ class Machine:
                         o = 0
                     if o < 0:
                         low[0] = min(low[0], o)
-                elif v[0] in ('n', 'lit', 'str'):
+                elif v[0] == 'n':
+                    # a position one or two characters behind the frontier may be looked at again (loop exit tests)
+                    try:
+                        o = self.offset(st, v)
+                    except Unsupported:
+                        return
+                    if -2 <= o < 0:
+                        need.add(-o - 1)
+                    return
+                elif v[0] in ('lit', 'str'):
                     return
                 else:
                     for x in v:
